@@ -282,6 +282,7 @@ func engineConc(ctx *engineCtx) {
 		sc := concScenario{Name: fmt.Sprintf("scenario%02d", si), Cfg: cfgToInts(cfg), ExtKind: extKind, Zone: zoneName(tz), Goroutines: goroutines, Rounds: rounds}
 		nIn := 4 + g.r.Intn(4)
 		var rtBytes, stBytes [][]byte
+		var caseTwin *sfeed
 		for k := 0; k < nIn; k++ {
 			var b []byte
 			switch {
@@ -293,6 +294,13 @@ func engineConc(ctx *engineCtx) {
 				b = marshal(&gtfsrt.FeedMessage{Header: header(1700000001), Entity: []*gtfsrt.FeedEntity{
 					{Id: ptr("p1"), TripUpdate: &gtfsrt.TripUpdate{Trip: &gtfsrt.TripDescriptor{TripId: ptr("T-shared")}, Vehicle: &gtfsrt.VehicleDescriptor{Id: ptr("V1")}}},
 					{Id: ptr("p2"), TripUpdate: &gtfsrt.TripUpdate{Trip: &gtfsrt.TripDescriptor{TripId: ptr("T-shared")}, Vehicle: &gtfsrt.VehicleDescriptor{Id: ptr("V2")}}}}})
+			case k == 2:
+				// one alert informing the same route twice through trip descriptors that determine no trip: first without a
+				// direction, then with one (the bookkeeping of the route fallback is per alert, not shared between calls)
+				rid := g.pick([]string{"R", "L", "7X"})
+				b = marshal(&gtfsrt.FeedMessage{Header: header(1700000002), Entity: []*gtfsrt.FeedEntity{{Id: ptr("fallback"), Alert: &gtfsrt.Alert{InformedEntity: []*gtfsrt.EntitySelector{
+					{Trip: &gtfsrt.TripDescriptor{RouteId: ptr(rid)}}, {Trip: &gtfsrt.TripDescriptor{RouteId: ptr(rid), DirectionId: ptr(uint32(g.r.Intn(2)))}},
+					{Trip: &gtfsrt.TripDescriptor{RouteId: ptr("other")}}, {Trip: &gtfsrt.TripDescriptor{RouteId: ptr("other"), DirectionId: ptr(uint32(1))}}}}}}})
 			case k == 1 && si%4 == 2:
 				// a large message (hundreds of trips and vehicles): whatever the parser does differently above some size
 				// (batching, helper goroutines) is part of the call and must be over when the call returns
@@ -332,7 +340,22 @@ func engineConc(ctx *engineCtx) {
 					}
 				}
 			}
-			if g.coin(0.4) {
+			if si%4 == 1 {
+				// two feeds that differ only in the letter case of the agency zone: the mis-spelt one (listed first) does not load
+				// and falls back to UTC - whatever other calls have loaded before or meanwhile
+				if k == 0 {
+					caseTwin = g.wellFormed(4 + g.r.Intn(4))
+					f = caseTwin.clone()
+					for _, a := range f.table("agency.txt").rows {
+						a["agency_timezone"] = "pacific/chatham"
+					}
+				} else {
+					f = caseTwin.clone()
+					for _, a := range f.table("agency.txt").rows {
+						a["agency_timezone"] = "Pacific/Chatham"
+					}
+				}
+			} else if g.coin(0.4) {
 				g.corruptRefs(f)
 			}
 			p := g.presentation(f)
